@@ -49,6 +49,14 @@ CHECKS['C10'] = dict(
     design_ref='DESIGN.md 4/C10',
     note='Trusted: MIR = code; std builtins; oracle evaluator; reserved-word list = reference/_index.md. Outside: programs beyond the skeletons; imports.',
     technique='symbolic execution of rustc MIR; relational prefix/full check and oracle comparison decided by z3 (bounded: skeletons)')
+CHECKS['C18'] = dict(
+    category='model_checking',
+    text='The real translator + VM run `env.NAME` programs (top level, inside a function, inside a module) against environments of 0..3 variables whose values are symbolic byte strings, '
+         'strict and non-strict: z3 decides that a set variable evaluates byte-for-byte to its value, an unset one is NULL (non-strict) or an error that names it (strict); disclosure of other '
+         'variables is decided as taint on the error value (format! arguments are kept); `let env` is rejected and a field named env selects the field.',
+    design_ref='DESIGN.md 4/C18',
+    note='Trusted: MIR = code; std builtins. Outside: capture of the OS environment in main, non-UTF-8 values, unusual names.',
+    technique='symbolic execution of rustc MIR with symbolic environment values; equality by z3, disclosure by taint on the error value (bounded: variables, bytes)')
 NOT_APPLICABLE = {
 }
 ALL = ['C%02d' % i for i in range(1, 21)]
